@@ -52,15 +52,15 @@ CLASSES = ['NetworkNode', 'Component', 'NetworkService', 'ConnectionPoint', 'Lin
 
 
 def snapshot(topo):
-    """canonical projection of the property graph: nodes [id, class, type|None, name|None] sorted by id,
-    edges [a, b, rel] (a <= b) sorted; ids are NodeID property values."""
+    """canonical projection of the property graph: nodes [id, class, type|None, name|None, Labels present]
+    sorted by id, edges [a, b, rel] (a <= b) sorted; ids are NodeID property values."""
     gm = topo.graph_model
     g = gm.storage.extract_graph(gm.graph_id)
     if g is None:
         return {'nodes': [], 'edges': []}
     nodes = []
     for n, d in g.nodes(data=True):
-        nodes.append([d.get('NodeID'), d.get('Class'), d.get('Type'), d.get('Name')])
+        nodes.append([d.get('NodeID'), d.get('Class'), d.get('Type'), d.get('Name'), d.get('Labels') is not None])
     nodes.sort(key=lambda x: (str(x[0]), str(x[1])))
     edges = []
     for a, b, d in g.edges(data=True):
@@ -157,7 +157,33 @@ class Resolver:
                     return i
         return None
 
+    # When a view does not show an element that the model holds (name-keyed views drop an element whose name
+    # collides with another one's, see the recorded finding on network_services), the handle is built from the
+    # graph directly -- what the views themselves do for the elements they show.
+    def _direct(self, nid, cls):
+        try:
+            labels, props = self.t.graph_model.get_node_properties(node_id=nid)
+        except Exception:
+            return None
+        if cls not in labels or props.get('Name') is None:
+            return None
+        from fim.user.node import Node
+        from fim.user.component import Component
+        from fim.user.network_service import NetworkService
+        from fim.user.interface import Interface
+        from fim.user.link import Link
+        ctor = {'NetworkNode': Node, 'Component': Component, 'NetworkService': NetworkService,
+                'ConnectionPoint': Interface, 'Link': Link}[cls]
+        return ctor(name=props['Name'], node_id=nid, topo=self.t)
+
     def elem(self, ref):
+        h = self._elem(ref)
+        if h is None:
+            h = self._direct(ref[1], {'node': 'NetworkNode', 'comp': 'Component', 'ns': 'NetworkService',
+                                      'link': 'Link', 'iface': 'ConnectionPoint'}[ref[0]])
+        return h
+
+    def _elem(self, ref):
         kind, eid = ref
         if kind == 'node':
             return self.node(eid)
@@ -212,7 +238,7 @@ def apply_op(topo, flavour, op):
         topo.remove_node(name=a[0])
     elif kind == 'add_component':
         node_id, cname, cid, ctype, model, ns_id, if_ids = a
-        n = _need(R.node(node_id))
+        n = _need(R.elem(['node', node_id]))
         kw = {}
         if ns_id is not None or if_ids is not None:
             kw = dict(network_service_node_id=ns_id, interface_node_ids=if_ids,
@@ -221,11 +247,11 @@ def apply_op(topo, flavour, op):
         n.add_component(name=cname, node_id=cid, ctype=f.ComponentType[ctype], model=model, **kw)
     elif kind == 'add_storage':
         node_id, cname, cid = a
-        n = _need(R.node(node_id))
+        n = _need(R.elem(['node', node_id]))
         n.add_storage(name=cname, node_id=cid, labels=Labels(local_name='vol'))
     elif kind == 'remove_component':
         node_id, cname = a
-        n = _need(R.node(node_id))
+        n = _need(R.elem(['node', node_id]))
         n.remove_component(name=cname)
     elif kind == 'add_facility':
         name, nid, site, ifnames = a
@@ -245,56 +271,56 @@ def apply_op(topo, flavour, op):
         topo.remove_switch(name=a[0])
     elif kind == 'add_ns':
         name, sid, nstype, if_ids = a
-        ifs = [_need(R.iface(i)) for i in if_ids]
+        ifs = [_need(R.elem(['iface', i])) for i in if_ids]
         topo.add_network_service(name=name, node_id=sid, nstype=f.ServiceType[nstype], interfaces=ifs)
     elif kind == 'add_pm':
         name, sid, from_name, to_id = a
-        to = _need(R.iface(to_id))
+        to = _need(R.elem(['iface', to_id]))
         topo.add_port_mirror_service(name=name, node_id=sid, from_interface_name=from_name, to_interface=to)
     elif kind == 'remove_ns':
         topo.remove_network_service(name=a[0])
     elif kind == 'node_add_ns':
         node_id, name, sid, nstype = a
-        n = _need(R.node(node_id))
+        n = _need(R.elem(['node', node_id]))
         n.add_network_service(name=name, node_id=sid, nstype=f.ServiceType[nstype])
     elif kind == 'node_remove_ns':
         node_id, name = a
-        n = _need(R.node(node_id))
+        n = _need(R.elem(['node', node_id]))
         n.remove_network_service(name=name)
     elif kind == 'add_link':
         name, lid, ltype, if_ids = a
-        ifs = [_need(R.iface(i)) for i in if_ids]
+        ifs = [_need(R.elem(['iface', i])) for i in if_ids]
         topo.add_link(name=name, node_id=lid, ltype=f.LinkType[ltype], interfaces=ifs)
     elif kind == 'remove_link':
         topo.remove_link(name=a[0])
     elif kind == 'connect':
         sid, iid = a
-        s = _need(R.ns(sid))
-        i = _need(R.iface(iid))
+        s = _need(R.elem(['ns', sid]))
+        i = _need(R.elem(['iface', iid]))
         s.connect_interface(interface=i)
     elif kind == 'disconnect':
         sid, iid = a
-        s = _need(R.ns(sid))
-        i = _need(R.iface(iid))
+        s = _need(R.elem(['ns', sid]))
+        i = _need(R.elem(['iface', iid]))
         s.disconnect_interface(interface=i)
     elif kind == 'peer':
-        s1 = _need(R.ns(a[0]))
-        s2 = _need(R.ns(a[1]))
+        s1 = _need(R.elem(['ns', a[0]]))
+        s2 = _need(R.elem(['ns', a[1]]))
         s1.peer(s2)
     elif kind == 'unpeer':
-        s1 = _need(R.ns(a[0]))
-        s2 = _need(R.ns(a[1]))
+        s1 = _need(R.elem(['ns', a[0]]))
+        s2 = _need(R.elem(['ns', a[1]]))
         s1.unpeer(s2)
     elif kind == 'add_sub':
         iid, name, subid, vlan = a
-        i = _need(R.iface(iid))
+        i = _need(R.elem(['iface', iid]))
         kw = {}
         if vlan is not None:
             kw['labels'] = Labels(vlan=str(vlan))
         i.add_child_interface(name=name, node_id=subid, **kw)
     elif kind == 'remove_sub':
         iid, name = a
-        i = _need(R.iface(iid))
+        i = _need(R.elem(['iface', iid]))
         i.remove_child_interface(name=name)
     elif kind == 'rename':
         ref, new = a
@@ -320,7 +346,27 @@ def new_topology(flavour):
     return f.ExperimentTopology() if flavour == 'exp' else f.SubstrateTopology()
 
 
+def order_hint(topo, op):
+    """the order in which the implementation is about to walk the interface list of the element a removal call
+    names (Python set iteration order -- not determined by the snapshot): the same expression the code evaluates,
+    evaluated on the same state right before the call"""
+    try:
+        kind, a = op[1], op[2:]
+        if kind in ('remove_node', 'remove_switch'):
+            return [i.node_id for i in topo.nodes[a[0]].interface_list]
+        if kind == 'remove_facility':
+            return [i.node_id for i in topo.facilities[a[0]].interface_list]
+        if kind == 'remove_component':
+            n = Resolver(topo).elem(['node', a[0]])
+            return [i.node_id for i in n.components[a[1]].interface_list]
+    except Exception:
+        pass
+    return []
+
+
 def step(topo, flavour, op, want_views=True):
+    _STATE['tag'], _STATE['k'] = 200000 + op[0], 0
+    hint = order_hint(topo, op)
     _STATE['tag'], _STATE['k'] = op[0], 0
     _STATE['drawn'] = drawn = []
     try:
@@ -332,7 +378,7 @@ def step(topo, flavour, op, want_views=True):
         out = type(e).__name__
     _STATE['drawn'] = None
     _STATE['tag'], _STATE['k'] = 100000 + op[0], 0     # draws made by the views (none expected) stay apart
-    st = {'out': out, 'drawn': drawn, 'snap': snapshot(topo)}
+    st = {'out': out, 'drawn': drawn, 'hint': hint, 'snap': snapshot(topo)}
     if want_views:
         st['views'] = views(topo)
     return st
